@@ -2,6 +2,7 @@ package gosym
 
 import (
 	"fmt"
+	"regexp"
 	"go/types"
 	"math"
 	"strconv"
@@ -713,3 +714,85 @@ func (e *Engine) floatTextSource(s Str) (*Term, bool) {
 }
 
 func fmtDesc(v Value) string { return fmt.Sprint(describe(v)) }
+
+// ---------------------------------------------------------------------------
+// regexp model: patterns are kept on the side; matching is native for concrete
+// input and structural for the anchored-literal patterns the repo uses.
+
+type regexpRec struct{ pattern string }
+
+func regexpCompile(p string) (*regexp.Regexp, error) { return regexp.Compile(p) }
+
+func init() {
+	compile := func(c *callCtx, a []Value) (Value, callStatus) {
+		pat := concStr(a[0])
+		if _, err := regexpCompile(pat); err != nil {
+			c.e.goPanic(Iface{t: types.Typ[types.String], v: Str{s: "regexp: Compile(" + pat + "): " + err.Error()}}, "regexp.MustCompile: "+err.Error())
+		}
+		p := c.e.prog.ImportedPackage("regexp")
+		t := p.Type("Regexp").Type()
+		o := c.e.newObj(t)
+		if c.e.regexps == nil {
+			c.e.regexps = map[*Obj]string{}
+		}
+		c.e.regexps[o] = pat
+		return Ptr{obj: o}, callDone
+	}
+	intrinsics["regexp.MustCompile"] = compile
+	intrinsics["regexp.Compile"] = func(c *callCtx, a []Value) (Value, callStatus) {
+		v, st := compile(c, a)
+		return Tuple{v, Iface{}}, st
+	}
+	intrinsics["(*regexp.Regexp).MatchString"] = func(c *callCtx, a []Value) (Value, callStatus) {
+		p := a[0].(Ptr)
+		pat, ok := c.e.regexps[p.obj]
+		if !ok {
+			panic(pathEnd{kind: endUnsupported, msg: "MatchString on unknown regexp"})
+		}
+		s := strOf(a[1])
+		if s.Concrete() {
+			re, _ := regexpCompile(pat)
+			return Bool(re.MatchString(s.s)), callDone
+		}
+		// ^literal
+		if strings.HasPrefix(pat, "^") && !strings.ContainsAny(pat[1:], `\.+*?()|[]{}^$`) {
+			lit := pat[1:]
+			if s.Len() < len(lit) {
+				return False, callDone
+			}
+			return c.e.valuesEqual(s.Sub(0, len(lit)), Str{s: lit}), callDone
+		}
+		panic(pathEnd{kind: endUnsupported, msg: "regexp " + pat + " on symbolic input"})
+	}
+	intrinsics["(*regexp.Regexp).String"] = func(c *callCtx, a []Value) (Value, callStatus) {
+		return Str{s: c.e.regexps[a[0].(Ptr).obj]}, callDone
+	}
+	matchNative := func(name string) {
+		intrinsics["(*regexp.Regexp)."+name] = func(c *callCtx, a []Value) (Value, callStatus) {
+			p := a[0].(Ptr)
+			pat := c.e.regexps[p.obj]
+			s := strOf(a[1])
+			if !s.Concrete() {
+				panic(pathEnd{kind: endUnsupported, msg: "regexp." + name + " on symbolic input"})
+			}
+			re, _ := regexpCompile(pat)
+			switch name {
+			case "FindStringSubmatch":
+				m := re.FindStringSubmatch(s.s)
+				if m == nil {
+					return Slice{}, callDone
+				}
+				o := c.e.newArrayObj(types.Typ[types.String], len(m))
+				for i, x := range m {
+					o.cells[i] = Str{s: x}
+				}
+				return Slice{obj: o, len: len(m), cap: len(m), esz: 1}, callDone
+			case "FindString":
+				return Str{s: re.FindString(s.s)}, callDone
+			}
+			panic(pathEnd{kind: endUnsupported, msg: "regexp." + name})
+		}
+	}
+	matchNative("FindStringSubmatch")
+	matchNative("FindString")
+}
